@@ -9,6 +9,7 @@ import (
 	"net"
 	"os"
 	"sync"
+	"time"
 
 	authconfig "github.com/bolkedebruin/rdpgw/cmd/auth/config"
 	"github.com/bolkedebruin/rdpgw/cmd/auth/database"
@@ -74,6 +75,9 @@ func (f *fakeAuth) Authenticate(ctx context.Context, m *auth.UserPass) (*auth.Au
 		return nil, errors.New("scripted failure")
 	}
 	ok := f.users[m.Username] != "" && f.users[m.Username] == m.Password
+	if m.Username == "slow" && ok {
+		time.Sleep(600 * time.Millisecond) // a slow successful check: other requests arrive while it is in flight
+	}
 	a := "basic:0"
 	if ok {
 		a = "basic:1"
